@@ -147,7 +147,10 @@ class Runner:
              "ret": "", "outcome": "ok", "langs": list(langs), "tree": {"none": {"none": ""}}, "elsewhere": [], "nfiles": 0, "dirshape": dirshape}
         site = ""
         if op == "format-d":
-            r = run([self.cli, "format", "-d", text], cwd=wd, env=env, timeout=150)
+            # bytes in, bytes out: no newline translation by the harness (a CR is part of what is printed)
+            r = run([self.cli, "format", "-d", text], cwd=wd, env=env, timeout=150, text=False)
+            r.stdout = r.stdout.decode("utf-8", "surrogateescape") if isinstance(r.stdout, bytes) else r.stdout
+            r.stderr = r.stderr.decode("utf-8", "replace") if isinstance(r.stderr, bytes) else r.stderr
             e["outcome"], site = outcome_of(r)
             e["stdout"], e["exit"] = r.stdout, r.returncode
         elif op == "format-f":
@@ -157,7 +160,7 @@ class Runner:
             e["outcome"], site = outcome_of(r)
             e["exit"] = r.returncode
             e["before"] = text
-            e["after"] = open(p, encoding="utf-8", errors="surrogateescape").read() if os.path.exists(p) else "<deleted>"
+            e["after"] = open(p, "rb").read().decode("utf-8", "surrogateescape") if os.path.exists(p) else "<deleted>"
             e["elsewhere"] = sorted(x for x in os.listdir(wd) if x != "in.dsl")
         elif op == "lib":
             # libres: the answer this call got inside a longer-lived library process (lib_session)
@@ -187,6 +190,10 @@ class Runner:
                 elif dirshape == "shared":
                     # every requested target writes into ONE directory
                     dirs[l] = os.path.join("o", "all")
+                elif dirshape in ("overlap", "overlap-rev"):
+                    # one target's directory CONTAINS the directories of the others (outer = the first / the last requested)
+                    outer = langs[0] if dirshape == "overlap" else langs[-1]
+                    dirs[l] = os.path.join("o", "all") if l == outer else os.path.join("o", "all", "zz.inner." + l)
                 else:
                     dirs[l] = os.path.join("o", l)
             args = [self.cli] + (["compile"] if op == "compile-word" else []) + ["-f", "in.dsl"]
@@ -222,6 +229,9 @@ class Runner:
             for l in (langs if dirshape != "shared" else ()):
                 t = tree_of(os.path.join(wd, dirs[l]))
                 t.pop("stale.txt", None)
+                if dirshape in ("overlap", "overlap-rev"):
+                    # the outer directory also holds the inner ones, which belong to the other targets
+                    t = {f: h for f, h in t.items() if not f.startswith("zz.inner.")}
                 nfiles += len(t)
                 tree[l] = t or {"none": ""}
             e["tree"] = tree or {"none": {"none": ""}}
@@ -274,6 +284,9 @@ def invalid_of(text):
     return text[:b.pos] + " " + text[b.pos + 1:]
 
 
+SHAPES = ["rel", "abs", "nested", "existing", "subcmd", "shared", "rerun", "overlap", "overlap-rev"]
+
+
 def check_c16(tier):
     rep = Report("C16", tier, "model_checking")
     thorough = tier == "thorough"
@@ -292,8 +305,8 @@ def check_c16(tier):
         for name in ("valid1", "valid2", "special"):
             for i, sub in enumerate(subsets if name != "special" else subsets[::5]):
                 for word in (False, True):
-                    shape = ["rel", "abs", "nested", "existing", "subcmd", "shared", "rerun"][(i + int(word)) % 7] if not thorough else None
-                    for sh in ([shape] if shape else ["rel", "abs", "nested", "existing", "subcmd", "shared", "rerun"]):
+                    shape = SHAPES[(i + int(word)) % len(SHAPES)] if not thorough else None
+                    for sh in ([shape] if shape else SHAPES):
                         jobs.append(("compile", (name, sub, word, sh)))
         # 3. format entry points on more texts: comment variants and invalid mutations
         extra = []
@@ -319,6 +332,10 @@ def check_c16(tier):
         extra.append(("minimal", docs.MINIMAL))
         extra.append(("special", docs.SPECIAL))
         extra.append(("special-relaid", dsltok.relayout(docs.SPECIAL, "fewlines", 1)))
+        # the same bytes must come out of all three entry points whatever the line ends are, also INSIDE documentation strings
+        for name in ("multiline", "second"):
+            extra.append((name + "-crlf", docs.DOCS[name].replace("\n", "\r\n")))
+            extra.append((name + "-cr-in-doc", docs.DOCS[name].replace("`\n", "`\r\n", 3)))
         for label, t in extra:
             jobs.append(("fmt3", (label, t)))
         # 4. a longer life of the loaded library: every text asked twice in a row, valid and invalid interleaved, in ONE process
